@@ -26,6 +26,7 @@ import ast
 import re
 from typing import Any, Dict, List, Optional, Sequence, Set, Tuple
 
+from engine.srcmatch import U
 from engine.abseval import OTHER, ErrorValue, Joined, Machine, Outcome, explore, mentioned_chars
 from engine.fold import EnumMember, Folder
 from engine.model import AnalysisError, Program, dotted, walk_no_nested
@@ -193,7 +194,7 @@ def _state_flag_justifies(kv: Any, parse: ast.AST, sub: ast.Subscript) -> bool:
     passthrough = False
     for x in ast.walk(parse):
         if isinstance(x, ast.If) and x.body and isinstance(x.body[-1], ast.Raise) and isinstance(x.test, ast.BoolOp) and isinstance(x.test.op, ast.And):
-            txt = [ast.unparse(v) for v in x.test.values]
+            txt = [U(v) for v in x.test.values]
             if f'{flag} is not {k_none}' in txt and any(t.endswith('is not NEWLINE') or t.endswith('is not Token.NEWLINE') for t in txt):
                 passthrough = True
     return passthrough
@@ -233,7 +234,7 @@ def run(ctx: Any, prog: Program) -> None:
                           and isinstance(st.value, ast.Constant) and st.value.value == 1)
                     ctx.check('C03.K1', ok, tk, st if isinstance(st, ast.stmt) else n,
                               'self._char_index may only be rewound by exactly one (`self._char_index -= 1`) outside _next_char',
-                              text=f'_char_index use in {name}: ' + ast.unparse(st)[:60])
+                              text=f'_char_index use in {name}: ' + U(st)[:60])
     # _next_char itself: the only subscript of the chunk uses self._char_index after += 1; refill sets index 0 and returns chunk[0]
     nc = tok_methods.get('_next_char')
     if nc is None:
@@ -264,23 +265,23 @@ def run(ctx: Any, prog: Program) -> None:
         if isinstance(n, (ast.Assign, ast.AugAssign, ast.AnnAssign)):
             tg = n.targets if isinstance(n, ast.Assign) else [n.target]
             if any(isinstance(t, ast.Name) and t.id == cv for t in tg):
-                ctx.check('C03.K1', False, tk, n, f'_next_char rewrites the chunk it just loaded (`{ast.unparse(n)[:60]}`): characters are dropped or altered depending on where the input was cut', text='_next_char: chunk rewritten at load')
+                ctx.check('C03.K1', False, tk, n, f'_next_char rewrites the chunk it just loaded (`{U(n)[:60]}`): characters are dropped or altered depending on where the input was cut', text='_next_char: chunk rewritten at load')
             elif any(dotted(t) == 'self._cur_chunk' for t in tg):
-                ctx.check('C03.K1', dotted(n.value) == cv, tk, n, f'_next_char stores `{ast.unparse(n.value)[:60]}` as the current chunk instead of the chunk it loaded', text='_next_char: current chunk = loaded chunk')
+                ctx.check('C03.K1', dotted(n.value) == cv, tk, n, f'_next_char stores `{U(n.value)[:60]}` as the current chunk instead of the chunk it loaded', text='_next_char: current chunk = loaded chunk')
     for n in ast.walk(refill[0]):
         if isinstance(n, ast.Name) and n.id == cv and isinstance(n.ctx, ast.Load):
             par = tk.parents.get(n)
             ok = (isinstance(par, ast.Call) and dotted(par.func) == 'isinstance') or isinstance(par, ast.If) or (isinstance(par, ast.Subscript) and isinstance(par.slice, ast.Constant) and par.slice.value == 0) \
                 or (isinstance(par, ast.Assign) and par.value is n) or (isinstance(par, ast.UnaryOp) and isinstance(par.op, ast.Not)) or (isinstance(par, ast.Call) and dotted(par.func) == 'len')
-            ctx.check('C03.K1', ok, tk, par if par is not None else n, f'_next_char inspects the content of the loaded chunk (`{ast.unparse(par)[:60] if par is not None else cv}`): only its type and emptiness may matter, '
-                      'anything else makes chunk boundaries observable', text=f'_next_char: chunk used as `{ast.unparse(par)[:40] if par is not None else cv}`')
+            ctx.check('C03.K1', ok, tk, par if par is not None else n, f'_next_char inspects the content of the loaded chunk (`{U(par)[:60] if par is not None else cv}`): only its type and emptiness may matter, '
+                      'anything else makes chunk boundaries observable', text=f'_next_char: chunk used as `{U(par)[:40] if par is not None else cv}`')
     # __init__: the cursor starts in front of the first character whatever the data is
     init_fn = tok_methods.get('__init__')
     if init_fn is not None:
         for n in ast.walk(init_fn):
             if isinstance(n, ast.Assign) and any(dotted(t) == 'self._char_index' for t in n.targets):
                 ok = isinstance(n.value, ast.UnaryOp) and isinstance(n.value.op, ast.USub) and isinstance(n.value.operand, ast.Constant) and n.value.operand.value == 1
-                ctx.check('C03.K1', ok, tk, n, f'__init__ starts the cursor at `{ast.unparse(n.value)[:50]}`: it must be -1 for every kind of input (a data-dependent start skips characters for a str but not for the same text in chunks)', text='__init__: cursor starts at -1')
+                ctx.check('C03.K1', ok, tk, n, f'__init__ starts the cursor at `{U(n.value)[:50]}`: it must be -1 for every kind of input (a data-dependent start skips characters for a str but not for the same text in chunks)', text='__init__: cursor starts at -1')
 
     # ---- K9: acyclic call graph among the tokenizer's own methods -------------------------------------------
     graph: Dict[str, Set[str]] = {}
@@ -358,7 +359,7 @@ def run(ctx: Any, prog: Program) -> None:
             if guard > 200:
                 raise AnalysisError(f'{qual}: loop discovery did not converge')
             node, ents = pending.pop()
-            where = f'{qual}: loop at `{ast.unparse(node.body[0])[:50]}` (line offset {node.lineno - fn.lineno})'
+            where = f'{qual}: loop at `{U(node.body[0])[:50]}` (line offset {node.lineno - fn.lineno})'
             louts = tab.run(node.body, True, ents, where)
             collect(louts)
             # loops that `break`: analyse the continuation
@@ -434,7 +435,7 @@ def run(ctx: Any, prog: Program) -> None:
                 ctx.check('C03.K5', ok, tk, n, 'token functions may only `raise self.error(...)`')
     for n in walk_no_nested(nc):
         if isinstance(n, ast.Raise):
-            src = ast.unparse(n.exc) if n.exc is not None else ''
+            src = U(n.exc) if n.exc is not None else ''
             ok = (isinstance(n.exc, ast.Call) and dotted(n.exc.func) == 'self.error') or \
                  (isinstance(n.exc, ast.Call) and dotted(n.exc.func) == 'ValueError' and _guarded_by_nonstr(tk, n))
             ctx.check('C03.K5', ok, tk, n, '_next_char may raise only self.error(...) or ValueError for non-str chunks (outside the property: inputs are str)')
@@ -518,8 +519,8 @@ def run(ctx: Any, prog: Program) -> None:
             cur = par
         if not safe and _state_flag_justifies(kv, parse, n):
             safe = True
-        ctx.check('C03.K5', safe, kv, n, f'`{ast.unparse(n)}` in Keyvalues.parse can raise a bare IndexError: nothing on the way to it establishes that `{ast.unparse(n.value)}` is non-empty '
-                  '(parse may only fail with KeyValError)', func='Keyvalues.parse', text=f'guarded index `{ast.unparse(n)}`')
+        ctx.check('C03.K5', safe, kv, n, f'`{U(n)}` in Keyvalues.parse can raise a bare IndexError: nothing on the way to it establishes that `{U(n.value)}` is non-empty '
+                  '(parse may only fail with KeyValError)', func='Keyvalues.parse', text=f'guarded index `{U(n)}`')
     if n_sub < 4:
         raise AnalysisError(f'Keyvalues.parse: only {n_sub} constant-index reads found (confirmed by hand: open_keyvalues[-1], cur_block_contents[-1] x4, root[0])')
     # ---- K6 static part ---------------------------------------------------------------------------
@@ -585,7 +586,7 @@ def _guarded_by_nonstr(mod: Any, n: ast.AST) -> bool:
     p = mod.parents.get(n)
     while p is not None:
         if isinstance(p, ast.If):
-            t = ast.unparse(p.test)
+            t = U(p.test)
             if 'isinstance(chunk, bytes)' in t or 'not isinstance(chunk, str)' in t:
                 return True
         p = mod.parents.get(p)
